@@ -125,6 +125,13 @@ func (m FileMatcher) matchNodes(file *ast.File, d data.Data) (data.Data, bool) {
 		switch n.(type) {
 		case *ast.Comment, *ast.CommentGroup:
 			return false
+		case *ast.BasicLit:
+			// The path of an import is not a string of the program. A
+			// change that rewrites a string leaves the imports alone;
+			// they are changed by listing them in the patch.
+			if _, ok := cursor.Parent().(*ast.ImportSpec); ok {
+				return false
+			}
 		}
 
 		d, ok := m.NodeMatcher.Match(reflect.ValueOf(n), d, nodeRegion(n))
